@@ -3,7 +3,7 @@ CONSTANTS
  Setups <- S_dup
  Acts <- A_dup
  Bufs <- B_one
- MaxSteps = 4
+ MaxSteps = 3
  MaxIn = 2
  Variant = "ok"
  CheckEpi = FALSE
